@@ -111,6 +111,28 @@ theorem entry_of_kept {tm : TM} {kept : List MdEntry} {k : MdEntry}
   simp only [List.mem_flatMap] at this
   exact this
 
+/-- a value a column holds under a name-list name: a singleton of the name row's type -/
+theorem present_value (c : Cfg) (tm : TM) (kept : List MdEntry) (h : ApiTM c tm kept) (col : Md) (hcol : col ∈ tm.cols)
+    (k : MdEntry) (hk : k ∈ kept) (x : Obj) (hx : (col.find k.name).bind (·.value) = some x) :
+    MdObjOk c x ∧ x.tid = entryTid k ∧ x.count = 1 := by
+  obtain ⟨hrep, _, hdist⟩ := fold_facts _ kept h.fold
+  cases hf : col.find k.name with
+  | none => simp [hf] at hx
+  | some e =>
+    simp only [hf, Option.bind_some] at hx
+    have hmem : e ∈ col.entries := List.mem_of_find?_eq_some hf
+    have hname : Md.nameEq e.name k.name = true := by
+      have := List.find?_some hf; simpa using this
+    obtain ⟨v, hv, hc1, _⟩ := (h.colInv col hcol).single e hmem
+    rw [hv] at hx
+    have hxv : v = x := by simpa using hx
+    subst hxv
+    obtain ⟨_, hfv, _⟩ := h.colFit col hcol e hmem
+    obtain ⟨k', hk', hn', ht'⟩ := hrep e (by simp only [List.mem_flatMap]; exact ⟨col, hcol, hmem⟩)
+    have hkk : k' = k := same_name_same_entry kept hdist k' k hk' hk (nameEq_trans hn' hname)
+    subst hkk
+    exact ⟨⟨(hfv v hv).1, hc1, (hfv v hv).2⟩, by rw [ht']; simp [entryTid, hv], hc1⟩
+
 /-- The canonical physical layout of an API-built table metadata object satisfies every
     well-formedness condition C04 asks for: the hypothesis `hok` of `file_roundtrip` holds. -/
 theorem canon_ok (c : Cfg) (tm : TM) (kept : List MdEntry) (h : ApiTM c tm kept) :
